@@ -589,7 +589,7 @@ def assemble(unit, workdir, vacuity_twins=False):
         contract = "\n".join(ex["contract"]).rstrip()
         body = splice_body(item["body"], ex, item)
         hdr = item.get("impl_header")
-        if ex["opts"].get("slice_sig") and not re.search(r"\bself\b", ex["opts"]["slice_sig"]):
+        if ex["opts"].get("slice_sig") and not re.search(r"\bself\b", ex["opts"]["slice_sig"]) and not re.search(r"\bSelf\b", item.get("body") or ""):
             hdr = None  # a slice with a free-function signature is emitted outside the impl block
         fq = ex["path"] + ("__pc" if ex.get("twin_of") else "")
         emit(f"// ---- extracted fn {fq} from {src} (panics={build_request(ex, meta)['panics']})")
